@@ -734,12 +734,24 @@ func ruleNoConcurrency(c *Ctx) []Obligation {
 	for _, u := range uses {
 		o.add(Violated, "jen", u, token.NoPos, true, "the library is documented and relied upon as sequential, state-free code; concurrency primitives introduce shared state")
 	}
-	forbidden := map[string]bool{"sync": true, "sync/atomic": true, "unsafe": true, "reflect": true}
+	forbidden := map[string]bool{"sync": true, "sync/atomic": true, "unsafe": true}
 	var imps []string
 	for _, p := range c.Jen.Pkg.Imports() {
 		imps = append(imps, p.Path())
 		if forbidden[p.Path()] {
 			o.add(Violated, "jen", "imports "+p.Path(), token.NoPos, true, "shared-state / unsafe package imported by jen")
+		}
+		if p.Path() == "reflect" {
+			// reflection is tolerated as a way of *looking at* values (reflect.TypeOf, Type and Kind
+			// queries, reading a Value): anything that can write through a Value, make addressable
+			// storage or call a function dynamically would defeat the store and call-graph rules
+			bad := reflectWrites(c)
+			for _, b := range bad {
+				o.add(Violated, "jen", "uses reflect to write or call: "+b, token.NoPos, true, "reflection that writes through values or calls functions is invisible to the store / call-graph rules")
+			}
+			if len(bad) == 0 {
+				o.add(Discharged, "jen", "reflect is used read-only", token.NoPos, true, "only type queries and reads of reflect.Value")
+			}
 		}
 	}
 	sort.Strings(imps)
@@ -1179,7 +1191,7 @@ func rulePanics(c *Ctx) []Obligation {
 			seen[k] = true
 			// documented exception: default case of the literal type switch in token.render
 			_ = tokRender
-			if c.isLitDefaultPanic(ef) {
+			if c.isLitDefaultPanic(ef) || c.litPanicOnPaths(ef.Pos) {
 				o.add(Discharged, ef.Via, "panic for unsupported literal type (documented: \"Passing any other type will panic\")", ef.Pos, true, "reachable from %s", fname(e))
 				continue
 			}
@@ -1676,5 +1688,50 @@ func (g *CallGraph) callersOf(f *ssa.Function) []*ssa.Function {
 			out = append(out, h)
 		}
 	}
+	return out
+}
+
+// reflectWrites: calls into package reflect other than the read-only ones.
+func reflectWrites(c *Ctx) []string {
+	readOnly := map[string]bool{"TypeOf": true, "ValueOf": true, "DeepEqual": true, "Indirect": true, "Zero": true, "PtrTo": true, "PointerTo": true}
+	roMethod := func(n string) bool {
+		switch {
+		case strings.HasPrefix(n, "Set"), strings.HasPrefix(n, "Call"), n == "Addr", n == "UnsafeAddr", n == "UnsafePointer", n == "Pointer", n == "Send", n == "Recv", n == "TrySend", n == "TryRecv", n == "Close", n == "Grow", n == "Clear":
+			return false
+		}
+		return true
+	}
+	var out []string
+	for _, f := range c.allFuncs(c.Jen) {
+		for _, b := range f.Blocks {
+			for _, in := range b.Instrs {
+				ci, ok := in.(ssa.CallInstruction)
+				if !ok {
+					continue
+				}
+				cc := ci.Common()
+				if cc.IsInvoke() {
+					if n, ok := cc.Value.Type().(*types.Named); ok && n.Obj().Pkg() != nil && n.Obj().Pkg().Path() == "reflect" && !roMethod(cc.Method.Name()) {
+						out = append(out, fname(f)+": "+cc.Method.Name())
+					}
+					continue
+				}
+				sc := cc.StaticCallee()
+				if sc == nil || sc.Pkg == nil || sc.Pkg.Pkg.Path() != "reflect" {
+					continue
+				}
+				if sc.Signature.Recv() != nil {
+					if !roMethod(sc.Name()) {
+						out = append(out, fname(f)+": "+sc.String())
+					}
+					continue
+				}
+				if !readOnly[sc.Name()] {
+					out = append(out, fname(f)+": "+sc.String())
+				}
+			}
+		}
+	}
+	sort.Strings(out)
 	return out
 }
